@@ -468,6 +468,7 @@ theorem Inv_ringStep {now : Nat} {fs : Files} {r : RingSt} (h : Inv now r) (op :
   | cqnew => exact ⟨h.tok, h.sqBound, h.readyMat, h.good, h.udSq, h.doneOk⟩
   | cqsync => exact ⟨h.tok, h.sqBound, h.readyMat, h.good, h.udSq, h.doneOk⟩
   | readable => exact h
+  | sqinfo => exact h
   | next pick =>
     simp only [ringStep]
     split
